@@ -18,6 +18,8 @@ Decided clauses (each a necessary condition of the statement, named here):
          *under* the given values of the section (given values win) and stored back
   C17.f  a required subcommand that cannot be determined, or a name outside the
          choices, raises (shared with C06.d)
+  C17.g  parser-wide settings that select a level's sources (default_env, parser_mode)
+         are pushed down through the property, so every level receives them
 Not decided: the resulting namespace for all subcommand trees and input mixes (a
 function of configuration contents); interaction with default config files.
 """
@@ -132,6 +134,24 @@ def run(ctx: Ctx) -> int:
     st = [s for s in sc.body if isinstance(s, ast.Assign) and any(isinstance(t, ast.Subscript) and isinstance(t.value, ast.Name) and t.value.id == nsp and dotted(t.slice) == "self.dest" for t in s.targets) and isinstance(s.value, ast.Name) and s.value.id == nm]
     ok = bool(st)
     ctx.oblige("C17.a", ok, st[0] if st else sc, "the argv path stores the chosen name under the subcommand key unconditionally" if ok else "the argv path no longer stores the chosen subcommand's name unconditionally", fn=sc, construct="argv stores the name")
+
+    # what is handed back: once a subcommand is chosen the list of names is exactly [chosen] - callers complete and
+    # check (required arguments!) the sub-parsers in that list
+    from .util import guard_atoms
+
+    narrow = [s for s in walk_local(gs) if isinstance(s, ast.Assign) and any(isinstance(t, ast.Name) and t.id == keys for t in s.targets) and isinstance(s.value, ast.List) and len(s.value.elts) == 1 and isinstance(s.value.elts[0], ast.Name) and s.value.elts[0].id == sel]
+    ok = len(narrow) == 1
+    if ok:
+        atoms = guard_atoms(narrow[0], stop=gs)
+        ok = bool(atoms) and all(isinstance(t, ast.Name) and t.id == sel and pol for t, pol in atoms)
+    ctx.oblige(
+        "C17.a",
+        ok,
+        narrow[0] if narrow else gs,
+        f"whenever a subcommand was chosen, the names handed back are exactly [`{sel}`]" if ok else f"`{keys} = [{sel}]` is missing or depends on more than `{sel}` being set: a subcommand chosen by name alone (no section of its own) is not handed back, so its defaults are not merged and its required arguments are not checked",
+        fn=gs,
+        construct="returned names are the chosen one",
+    )
 
     # ---------------- C17.c exclusivity ------------------------------------------------------------------
     dels = [s for s in walk_local(gs) if isinstance(s, ast.Delete) and any(isinstance(t, ast.Subscript) and isinstance(t.value, ast.Name) and t.value.id == "cfg" for t in s.targets)]
@@ -278,6 +298,32 @@ def run(ctx: Ctx) -> int:
         early = [r for r in walk_local(gs) if isinstance(r, ast.Return) and r.lineno < rz[0].lineno and any(ast.unparse(t) == "fail_no_subcommand" and pol for t, pol in guard_chain(r, stop=gs))]
         ok = not extra and any("_name_parser_map" in ast.unparse(t) for t in pos) and all(any("is None" in ast.unparse(t) and "_required" in ast.unparse(t) and pol for t, pol in guard_chain(r, stop=gs)) for r in early)
     ctx.oblige("C17.f", ok, rz[0] if rz else gs, "when a decision is asked for, a missing required subcommand or a name outside the choices raises; only 'nothing given, nothing required' returns without a subcommand" if ok else "a required subcommand that cannot be determined (or an unknown name) is no longer an error on every path", fn=gs, construct="required / unknown raises")
+
+    # ---------------- C17.g settings that select sources reach every level --------------------------------------
+    # a parser-wide setting (default_env, parser_mode) is pushed to the sub-parsers by its property setter; the
+    # push assigns the PROPERTY on each sub-parser, so that sub-parser's own setter pushes it further down
+    n_set = 0
+    apc = ctx.repo.cls("_core:ArgumentParser")
+    for m in apc.body:
+        if not isinstance(m, ast.FunctionDef):
+            continue
+        setter_of = next((d.value.id for d in m.decorator_list if isinstance(d, ast.Attribute) and d.attr == "setter" and isinstance(d.value, ast.Name)), None)
+        if setter_of is None:
+            continue
+        for lp in [x for x in ast.walk(m) if isinstance(x, ast.For) and "_name_parser_map" in ast.unparse(x.iter) and isinstance(x.target, ast.Name)]:
+            n_set += 1
+            lv = lp.target.id
+            stores = [s for s in ast.walk(lp) if isinstance(s, ast.Assign) and any(isinstance(t, ast.Attribute) and isinstance(t.value, ast.Name) and t.value.id == lv for t in s.targets)]
+            attrs = {t.attr for s in stores for t in s.targets if isinstance(t, ast.Attribute)}
+            ok = attrs == {setter_of}
+            ctx.oblige(
+                "C17.g",
+                ok,
+                lp,
+                f"`{setter_of}` is pushed to every sub-parser through the property itself (each level pushes it further)" if ok else f"the setter of `{setter_of}` writes {sorted(attrs)} on the sub-parsers instead of the property `{setter_of}`: the setting stops at the first subcommand level, deeper levels keep their own value (their environment / parser mode is not the one configured on the root)",
+                fn=m,
+            )
+    ctx.floor("C17.g-propagating-setters", n_set, 2)
 
     ctx.trusted_base += ["argparse hands the sub-parser name and the remaining arguments to _ActionSubCommands.__call__ as values[0], values[1:]", "Namespace.merge semantics: merge_config(cfg_from, cfg_to) lets cfg_from win (decided under C04)"]
     ctx.notes.append("C17's exhaustive claim (the result namespace for every subcommand tree and input mix) is NOT decided; the clauses above are the structural necessary conditions of the selection rule as written in get_subcommands / handle_subcommands / __call__.")
